@@ -12,7 +12,7 @@ mod scenario;
 
 use common::{par::*, report::{finish, Meta}, *};
 use jarside::{InEntry, OutEntry};
-use mapside::{Dst, Exp, Src};
+use mapside::{Exp, Src};
 use maps::{Ins, Maps};
 use refnest::*;
 use scenario::*;
@@ -73,7 +73,10 @@ fn map_side(rng: &mut Rng, rep: &mut Report, rows: &[Row], text: &str, m: &Maps,
             maps::watch(rep, "C14", "apply_nests_to_mappings", &a, &detail);
             let got = maps::from_quill(&a);
             rep.count("apply.judged");
-            if mapside::judge_maps(rep, "apply", &want, &got, &detail) { rep.count("apply.equal_to_reference"); }
+            let listed_new: BTreeSet<String> = names_all.values().cloned().collect();
+            let listed_old: BTreeSet<String> = names_all.keys().cloned().collect();
+            rep.add("apply.unlisted_class_entries_with_judged_target_name", m.classes.keys().filter(|k| !listed_old.contains(*k)).count() as u64);
+            if mapside::judge_maps(rep, "apply", &want, &got, &listed_new, &detail) { rep.count("apply.equal_to_reference"); }
             let renamed = m.classes.keys().filter(|k| names_all.get(*k).is_some_and(|n| n != *k)).count();
             rep.add("apply.class_entries_renamed_expected", renamed as u64);
             let mut descs_changed = 0u64;
@@ -87,7 +90,7 @@ fn map_side(rng: &mut Rng, rep: &mut Report, rows: &[Row], text: &str, m: &Maps,
                     maps::watch(rep, "C14", "undo_nests_to_mappings", &u, &detail);
                     let back = maps::from_quill(&u);
                     rep.count("undo.judged");
-                    if mapside::judge_maps(rep, "undo(apply(M)) vs M", m, &back, &detail) { rep.count("undo.restores_source_names_and_descriptors"); }
+                    if mapside::judge_maps(rep, "undo(apply(M)) vs M", m, &back, &listed_old, &detail) { rep.count("undo.restores_source_names_and_descriptors"); }
                 }
             }
             out.applied = Some(got);
@@ -289,7 +292,7 @@ fn self_checks() -> Result<(), String> {
             let mut fewer_names = names_all.clone(); fewer_names.remove(&victim);
             if let Some(wrong) = mapside::ref_apply(&m, &fewer_names) {
                 let mut probe = Report::new();
-                mapside::judge_maps(&mut probe, "apply", &wrong, &maps::from_quill(&a), &|| json!(null));
+                mapside::judge_maps(&mut probe, "apply", &wrong, &maps::from_quill(&a), &names_all.values().cloned().collect(), &|| json!(null));
                 if !probe.violations.is_empty() { map_ok = true; }
             }
         }
@@ -356,7 +359,7 @@ fn run_miri(ctx: &Ctx, ops_per_shard: usize) -> (Value, Vec<String>, Vec<String>
     let build_s = t0.elapsed().as_secs();
     // step 2: shards in parallel
     let shards = ctx.threads.clamp(1, 8);
-    let children: Vec<_> = (0..shards).filter_map(|k| cmd("200", &[ctx.seed.to_string(), ops_per_shard.to_string(), "150".into(), k.to_string()]).stdout(std::process::Stdio::piped()).stderr(std::process::Stdio::piped()).spawn().ok()).collect();
+    let children: Vec<_> = (0..shards).filter_map(|k| cmd("150", &[ctx.seed.to_string(), ops_per_shard.to_string(), "100".into(), k.to_string()]).stdout(std::process::Stdio::piped()).stderr(std::process::Stdio::piped()).spawn().ok()).collect();
     let (mut done, mut ops, mut cases) = (0u64, 0u64, 0u64);
     let (mut diags, mut obs, mut failed): (Vec<String>, Vec<String>, Vec<String>) = (vec![], vec![], vec![]);
     for (k, c) in children.into_iter().enumerate() {
@@ -375,7 +378,7 @@ fn run_miri(ctx: &Ctx, ops_per_shard: usize) -> (Value, Vec<String>, Vec<String>
     diags.sort(); diags.dedup(); obs.sort(); obs.dedup();
     let status = if !diags.is_empty() { "diagnostic" } else if done as usize == shards { "completed" } else if done > 0 { "partly completed (rest skipped)" } else { "skipped" };
     (json!({"status": status, "shards": shards, "shards_completed": done, "cases_interpreted": cases, "mapping_side_operations_interpreted": ops, "build_s": build_s, "wall_s": t0.elapsed().as_secs(),
-        "diagnostics": diags, "not_completed": failed, "flags": "-Zmiri-disable-isolation", "command": "cargo +nightly miri run --offline -p c14 -- --miri-slice <seed> <operations> 150 <shard>"}), diags, obs)
+        "diagnostics": diags, "not_completed": failed, "flags": "-Zmiri-disable-isolation", "command": "cargo +nightly miri run --offline -p c14 -- --miri-slice <seed> <operations> 100 <shard>"}), diags, obs)
 }
 
 fn main() {
@@ -387,13 +390,13 @@ fn main() {
         let shard = args.get(p + 4).and_then(|s| s.parse().ok()).unwrap_or(0);
         std::process::exit(miri_slice(seed, n, max_s, shard));
     }
-    let mut ctx = Ctx::from_args("C14", 35, 420);
+    let mut ctx = Ctx::from_args("C14", 35, 300);
     let replay = load_replay(&mut ctx);
     if let Err(e) = self_checks() { println!("HARNESS-ERROR C14 self-check failed: {e}"); std::process::exit(3); }
     let mut rep = Report::new();
     // the cheap workload first: the wall-clock budget only ends generation, and the obligations of both are met within the first few hundred cases
-    let n_maps = ctx.tier.pick(20_000, 600_000);
-    let n_jar = ctx.tier.pick(5_000, 150_000);
+    let n_maps = ctx.tier.pick(20_000, 300_000);
+    let n_jar = ctx.tier.pick(5_000, 60_000);
     run_cases(&ctx, &replay, &mut rep, "maps", n_maps, |rng, rep, _| maps_case(rng, rep, false));
     run_cases(&ctx, &replay, &mut rep, "jar", n_jar, |rng, rep, _| jar_case(rng, rep));
 
@@ -406,7 +409,7 @@ fn main() {
         .assume("a missing enclosing class has no row of its own and a row for an absent class never encloses a present one (the filter's treatment of a class that was just created depends on row order and is not specified)")
         .assume("\"enclosing method present\" = the row names a method that the enclosing class in the jar declares (DESIGN C14); anonymous numbers stay within 1..=i32::MAX or are zero")
         .assume("jar entry name = class name + .class; access flags use only the ten bits JVMS 4.7.6 defines")
-        .assume("not judged: target names after apply/undo, generic signatures, facts the reader / jar remapper are known to drop (records, unknown attributes, module data, parameter annotations: removed from the generated bodies), order of InnerClasses entries, facts of created classes other than their name, remap=false");
+        .assume("not judged: target names of listed classes after apply/undo (the target name of an unlisted class must stay), generic signatures, facts the reader / jar remapper are known to drop (records, unknown attributes, module data, parameter annotations: removed from the generated bodies), order of InnerClasses entries, facts of created classes other than their name, remap=false");
     if replay.is_none() {
         for k in ["anonymous", "inner", "local"] {
             meta.oblige(format!("{k} rows that apply and {k} rows whose class is present but whose rule fails"), rep.get(&format!("rows.{k}.applies")) > 20 && rep.counters.iter().any(|(c, v)| c.starts_with(&format!("rows.not_applying.{k}:")) && *v > 5));
@@ -430,9 +433,9 @@ fn main() {
         meta.oblige("fewer than 10% of the generated cases fall outside the domain", (rep.get("domain.skipped_rename_not_injective") + rep.get("domain.translated_table_cyclic") + rep.get("domain.translation_outside_pinned_rules") + rep.get("domain.apply_would_collide") + rep.get("harness.emit_skipped") + rep.get("harness.to_quill_failed")) * 10 < rep.evaluations.max(1) && rep.get("harness.cyclic_source_table") == 0);
         meta.oblige("the invariant walker ran on results", rep.get("invariant.walks") > 1000);
         if ctx.tier == Tier::Thorough {
-            let (status, diags, obs) = run_miri(&ctx, 60);
+            let (status, diags, obs) = run_miri(&ctx, 40);
             rep.cur = ("miri".into(), 0);
-            for d in diags { rep.violation(format!("miri: {d}"), json!({"how": "cargo +nightly miri run --offline -p c14 -- --miri-slice <seed> 60 150 <shard>", "seed": ctx.seed as i64})); }
+            for d in diags { rep.violation(format!("miri: {d}"), json!({"how": "cargo +nightly miri run --offline -p c14 -- --miri-slice <seed> 40 100 <shard>", "seed": ctx.seed as i64})); }
             // functional mismatches seen under the interpreter carry the signatures of the native run
             for o in obs { let sig = o.rsplit_once(" (").map(|(a, _)| a.to_string()).unwrap_or(o); rep.violation(sig, json!({"seen_in": "miri slice (the native workloads carry the inputs)"})); }
             rep.add("miri.mapping_side_operations_interpreted", status["mapping_side_operations_interpreted"].as_u64().unwrap_or(0));
